@@ -137,6 +137,9 @@ pub struct DirCase {
     /// how integer values are handed to the creator: 0 = immediate (`Value::Unsigned/Signed`), 1 = a per-entry mix of
     /// immediate and deferred (`Value::UnsignedWord/SignedWord` of a constant), 2 = all deferred. Same values either way.
     pub defer: u8,
+    /// seed of the free data (index free data and index key; pack free data where the creation path lets the caller
+    /// choose it); 0 = all zero, the creators' default
+    pub free: u64,
 }
 
 #[derive(Clone, Debug)]
@@ -237,6 +240,7 @@ impl DirCase {
         json!({
             "seed": self.seed,
             "defer": self.defer,
+            "free": self.free,
             "vstores": self.vstores.iter().map(|i| if *i {"indexed"} else {"plain"}).collect::<Vec<_>>(),
             "stores": self.stores.iter().map(|s| json!({
                 "n": s.n,
@@ -251,6 +255,7 @@ impl DirCase {
         DirCase {
             seed: ju64(v, "seed"),
             defer: v.get("defer").and_then(|x| x.as_u64()).unwrap_or(0) as u8,
+            free: v.get("free").and_then(|x| x.as_u64()).unwrap_or(0),
             vstores: jarr(v, "vstores").iter().map(|x| x.as_str() == Some("indexed")).collect(),
             stores: jarr(v, "stores").iter().map(|s| StoreDef {
                 n: ju64(s, "n") as usize,
@@ -668,8 +673,8 @@ pub fn install(case: &DirCase, built: Built, creator: &mut jbk::creator::Directo
     for ix in &case.indexes {
         creator.create_index(
             &ix.name,
-            Default::default(),
-            0.into(),
+            index_free(case, &ix.name).into(),
+            jbk::PropertyIdx::from(index_key(case, ix)),
             ids[ix.store],
             jbk::EntryCount::from(ix.count),
             jbk::EntryIdx::from(ix.offset).into(),
@@ -678,10 +683,51 @@ pub fn install(case: &DirCase, built: Built, creator: &mut jbk::creator::Directo
     Installed { handles: built.handles, models: built.models }
 }
 
+/// `n` free bytes for the thing called `tag` (all zero when the case has no free-data seed).
+pub fn free_bytes(seed: u64, tag: &str, n: usize) -> Vec<u8> {
+    if seed == 0 {
+        return vec![0; n];
+    }
+    let mut h = seed;
+    for b in tag.bytes() {
+        h = (h ^ b as u64).wrapping_mul(0x100_0000_01B3);
+    }
+    let mut out = Vec::with_capacity(n + 8);
+    let mut i = 0u64;
+    while out.len() < n {
+        let mut x = h ^ i.wrapping_mul(0x9E37_79B9_7F4A_7C15);
+        x ^= x >> 30;
+        x = x.wrapping_mul(0xBF58_476D_1CE4_E5B9);
+        x ^= x >> 27;
+        out.extend_from_slice(&x.to_le_bytes());
+        i += 1;
+    }
+    out.truncate(n);
+    out
+}
+
+pub fn pack_free(seed: u64, tag: &str) -> [u8; 24] {
+    let mut a = [0u8; 24];
+    a.copy_from_slice(&free_bytes(seed, tag, 24));
+    a
+}
+
+pub fn index_free(case: &DirCase, name: &str) -> [u8; 4] {
+    let mut a = [0u8; 4];
+    a.copy_from_slice(&free_bytes(case.free, &format!("index:{name}"), 4));
+    a
+}
+
+/// The property an index declares as its key (free choice of the writer; 0 by default).
+pub fn index_key(case: &DirCase, ix: &IndexDef) -> u8 {
+    let n = case.stores[ix.store].common.len().max(1);
+    (free_bytes(case.free, &format!("key:{}", ix.name), 1)[0] as usize % n) as u8
+}
+
 /// Create the directory pack as a bare pack file.
 pub fn create_bare(case: &DirCase, path: &Path) -> Result<Installed, String> {
     let built = build(case);
-    let mut creator = jbk::creator::DirectoryPackCreator::new(jbk::PackId::from(0), crate::content::vendor(), Default::default());
+    let mut creator = jbk::creator::DirectoryPackCreator::new(jbk::PackId::from(0), crate::content::vendor(), pack_free(case.free, "directory").into());
     let inst = install(case, built, &mut creator);
     let mut file = std::fs::OpenOptions::new().read(true).write(true).create(true).truncate(true).open(path).map_err(|e| e.to_string())?;
     let fin = creator.finalize().map_err(|e| format!("finalize: {e}"))?;
@@ -692,7 +738,7 @@ pub fn create_bare(case: &DirCase, path: &Path) -> Result<Installed, String> {
 /// Same through an in-memory cursor; returns the bytes.
 pub fn create_mem(case: &DirCase) -> Result<(Installed, Vec<u8>), String> {
     let built = build(case);
-    let mut creator = jbk::creator::DirectoryPackCreator::new(jbk::PackId::from(0), crate::content::vendor(), Default::default());
+    let mut creator = jbk::creator::DirectoryPackCreator::new(jbk::PackId::from(0), crate::content::vendor(), pack_free(case.free, "directory").into());
     let inst = install(case, built, &mut creator);
     let mut cur = std::io::Cursor::new(Vec::new());
     let fin = creator.finalize().map_err(|e| format!("finalize: {e}"))?;
